@@ -1,13 +1,12 @@
 (* C08 — Persistent identifiers and headers round-trip exactly.
    Only statements closed by [exact]; proofs live in proof/CodecsProofs.v.
-   Four decoders are modelled as REPAIRED in the working tree: ReadTTL (counts outside 0..255
-   and unknown unit letters are errors), NewVolumeId (parsed as 32-bit),
-   NewReplicaPlacementFromString (lengths other than 0 and 3 are errors) and ReadSuperBlock
-   (the extra metadata is read from the file).
-   Known findings (kept in the model as the code is): 0 = a file id with needle key 0 prints
-   without key digits and does not parse back (c08_file_id_refuted / _partial / _iff);
-   1 = LoadTTLFromUint32 decodes integers that are not the ToUint32 of any TTL
-   (c08_ttl_u32_refuted / c08_ttl_u32_accept_iff). *)
+   Four decoders and one encoder are modelled as REPAIRED in the working tree: ReadTTL (counts
+   outside 0..255 and unknown unit letters are errors), NewVolumeId (parsed as 32-bit),
+   NewReplicaPlacementFromString (lengths other than 0 and 3 are errors), ReadSuperBlock
+   (the extra metadata is read from the file) and formatNeedleIdCookie (at least one key byte
+   is printed: former finding 0, a file id with needle key 0 printed without key digits).
+   Known finding (kept in the model as the code is): 1 = LoadTTLFromUint32 decodes integers
+   that are not the ToUint32 of any TTL (c08_ttl_u32_refuted / c08_ttl_u32_accept_iff). *)
 From Coq Require Import List NArith ZArith Bool.
 From SW Require Import model.Needle model.Codecs proof.NeedleProofs proof.CodecsProofs proof.CodecsAccept.
 Import ListNotations.
@@ -96,45 +95,36 @@ Proof. exact volume_id_reject. Qed.
 Print Assumptions c08_volume_id_reject.
 
 (* ---------- file ids ---------- *)
-(* FULL statement (every volume, key, cookie) is FALSE on the code as it is: finding 0 *)
-Theorem c08_file_id_refuted : exists vid key cookie, vid < 2 ^ 32 /\ key < 2 ^ 64 /\ cookie < 2 ^ 32 /\
-  parse_file_id (fid_string vid key cookie) <> Some (vid, key, cookie).
-Proof. exact file_id_refuted. Qed.
-Print Assumptions c08_file_id_refuted.
-
-(* ... and the trigger is exact: the round trip holds precisely outside trig_key0 (key = 0) *)
-Theorem c08_file_id_partial : forall vid key cookie, vid < 2 ^ 32 -> key < 2 ^ 64 -> cookie < 2 ^ 32 ->
-  (parse_file_id (fid_string vid key cookie) = Some (vid, key, cookie) <-> trig_key0 key = false).
-Proof. exact file_id_roundtrip_iff. Qed.
-Print Assumptions c08_file_id_partial.
-
-(* inside the trigger the string is rejected (never decoded to another id), whatever volume and cookie *)
-Theorem c08_file_id_key0_rejected : forall vid cookie, parse_file_id (fid_string vid 0 cookie) = None.
-Proof. exact file_id_key0. Qed.
-Print Assumptions c08_file_id_key0_rejected.
-
-Theorem c08_parse_path_partial : forall key cookie, key < 2 ^ 64 -> cookie < 2 ^ 32 ->
-  (parse_path (format_key_cookie key cookie) = Some (key, cookie) <-> trig_key0 key = false).
-Proof. exact parse_path_roundtrip_iff. Qed.
-Print Assumptions c08_parse_path_partial.
-
-(* the same, in the form with the hypothesis 1 <= key *)
-Theorem c08_file_id_roundtrip : forall vid key cookie, vid < 2 ^ 32 -> 1 <= key -> key < 2 ^ 64 ->
+(* FULL statement: every volume, key (0 included) and cookie.  formatNeedleIdCookie is modelled as
+   repaired in the working tree (it keeps at least one key byte); on the unrepaired code key 0
+   printed as the 8 cookie digits only, which ParseFileIdFromString / ParsePath reject. *)
+Theorem c08_file_id_roundtrip : forall vid key cookie, vid < 2 ^ 32 -> key < 2 ^ 64 ->
   cookie < 2 ^ 32 -> parse_file_id (fid_string vid key cookie) = Some (vid, key, cookie).
 Proof. exact file_id_roundtrip. Qed.
 Print Assumptions c08_file_id_roundtrip.
 
-Theorem c08_parse_path_roundtrip : forall key cookie, 1 <= key -> key < 2 ^ 64 -> cookie < 2 ^ 32 ->
+Theorem c08_parse_path_roundtrip : forall key cookie, key < 2 ^ 64 -> cookie < 2 ^ 32 ->
   parse_path (format_key_cookie key cookie) = Some (key, cookie).
 Proof. exact parse_path_plain. Qed.
 Print Assumptions c08_parse_path_roundtrip.
 
-Theorem c08_parse_path_delta : forall key cookie d, 1 <= key -> key < 2 ^ 64 -> cookie < 2 ^ 32 ->
+Theorem c08_parse_path_delta : forall key cookie d, key < 2 ^ 64 -> cookie < 2 ^ 32 ->
   d < 2 ^ 64 ->
   parse_path (format_key_cookie key cookie ++ [95] ++ itoa d) =
     Some ((key + d) mod 18446744073709551616, cookie).
 Proof. exact parse_path_delta. Qed.
 Print Assumptions c08_parse_path_delta.
+
+(* the former witness of finding 0, for every volume and cookie *)
+Theorem c08_file_id_key0_roundtrip : forall vid cookie, vid < 2 ^ 32 -> cookie < 2 ^ 32 ->
+  parse_file_id (fid_string vid 0 cookie) = Some (vid, 0, cookie).
+Proof. exact file_id_key0. Qed.
+Print Assumptions c08_file_id_key0_roundtrip.
+
+(* what is printed always has a key part: 10..24 characters, inside what ParseNeedleIdCookie accepts *)
+Theorem c08_key_cookie_length : forall key cookie, 10 <= len (format_key_cookie key cookie) <= 24.
+Proof. exact len_format_range. Qed.
+Print Assumptions c08_key_cookie_length.
 
 (* rejection: an accepted key/cookie string has 9..24 characters, all hexadecimal, and key and
    cookie are the values of its two parts (the cookie is the last 8 characters) *)
@@ -281,10 +271,11 @@ Print Assumptions c08_example.
 
 (* the findings, the acceptance theorems and the 5-byte definitions on concrete inputs *)
 Example c08_example_more :
-  fid_string 3 0 1668298710 = [51; 44; 54; 51; 55; 48; 51; 55; 100; 54]          (* "3,637037d6": no key digits *)
-  /\ parse_file_id [51; 44; 54; 51; 55; 48; 51; 55; 100; 54] = None
-  /\ parse_file_id [51; 44; 48; 48; 54; 51; 55; 48; 51; 55; 100; 54] = Some (3, 0, 1668298710)   (* "3,00637037d6" *)
-  /\ trig_key0 0 = true /\ trig_key0 1 = false
+  fid_string 3 0 1668298710 = [51; 44; 48; 48; 54; 51; 55; 48; 51; 55; 100; 54]   (* "3,00637037d6": key 0 keeps one key byte (repaired) *)
+  /\ parse_file_id [51; 44; 48; 48; 54; 51; 55; 48; 51; 55; 100; 54] = Some (3, 0, 1668298710)
+  /\ parse_file_id [51; 44; 54; 51; 55; 48; 51; 55; 100; 54] = None                   (* "3,637037d6", what the unrepaired code printed *)
+  /\ format_key_cookie 0 0 = [48; 48; 48; 48; 48; 48; 48; 48; 48; 48]
+  /\ parse_path [48; 48; 48; 48; 48; 48; 48; 48; 48; 48] = Some (0, 0)
   /\ parse_path [48; 49; 54; 51; 55; 48; 51; 55; 100; 54; 95; 50] = Some (3, 1668298710)       (* "01637037d6_2" *)
   /\ parse_path [48; 49; 54; 51; 55; 48; 51; 55; 100; 54; 95] = Some (1, 1668298710)           (* "01637037d6_" *)
   /\ parse_path [48; 49; 54; 51; 55; 48; 51; 55; 100; 54; 95; 43; 49] = None                   (* "01637037d6_+1" *)
